@@ -142,3 +142,19 @@ HANDLERS.update({
     "iban.bank": iban_bank,
     "lookup.model": lookup_model,
 })
+
+
+# ------------------------------------------------------- national validation
+def bban_nat(a):
+    o = IBAN(T(a["t"]), allow_invalid=True)
+    r = o.bban.validate_national_checksum()
+    return {"ret": r is True, "rett": type(r).__name__}
+
+
+def algo_validate(a):
+    from schwifty.checksum import algorithms
+    r = algorithms["DE:" + a["method"]].validate([T(a["account"])], "")
+    return {"ret": r is True, "rett": type(r).__name__}
+
+
+HANDLERS.update({"bban.nat": bban_nat, "algo.validate": algo_validate})
